@@ -64,6 +64,8 @@ def build_overlay(chk, scratch):
             cmd += ["-adopt", ",".join("%s=%s=%s" % (a["import"], os.path.join(gomod, a["dir"]), a["target"]) for a in adopt)]
         if chk.get("race_access"):
             cmd += ["-race", ",".join(chk["race_access"])]
+        if chk.get("rebind"):
+            cmd += ["-rebind", ",".join("%s=%s@%s" % (rb["import"], rb["to"], "+".join(rb["pkgs"])) for rb in chk["rebind"])]
         r = subprocess.run(cmd, capture_output=True, text=True)
         if r.returncode != 0:
             infra("instrumenter failed: " + r.stderr + r.stdout)
@@ -72,7 +74,11 @@ def build_overlay(chk, scratch):
         s = os.path.join(VERIF, src)
         if not os.path.exists(s):
             infra("mount source missing: " + s)
-        ov[os.path.join(REPO, dst)] = s
+        if os.path.isdir(s):
+            for f in glob.glob(os.path.join(s, "*.go")):
+                ov[os.path.join(REPO, dst, os.path.basename(f))] = f
+        else:
+            ov[os.path.join(REPO, dst)] = s
     for dst in chk.get("drop", []):
         ov[os.path.join(REPO, dst)] = ""
     p = os.path.join(scratch, "overlay.json")
@@ -100,28 +106,29 @@ def known_findings():
     return json.load(open(p)).get("findings", [])
 
 
-def run_check(pid, tier, seed):
-    chk = load_check(pid)
-    t_start = time.time()
-    scratch = tempfile.mkdtemp(prefix="vchk_%s_" % pid, dir=os.environ.get("VERIF_SCRATCH", "/tmp"))
+def run_part(pid, chk, part, pi, tier, seed, scratch):
     procs = []
     try:
-        overlay = build_overlay(chk, scratch)
-        binp, build_s = build_test(chk, scratch, overlay)
-        shards = int(chk.get("shards", {}).get(tier, NCPU) if isinstance(chk.get("shards"), dict) else chk.get("shards", NCPU))
+        pscratch = os.path.join(scratch, "p%d" % pi)
+        os.makedirs(pscratch)
+        overlay = build_overlay(part, pscratch)
+        binp, build_s = build_test(part, pscratch, overlay)
+        sh = part.get("shards", chk.get("shards", NCPU))
+        shards = int(sh.get(tier, NCPU) if isinstance(sh, dict) else sh)
         shards = max(1, min(shards, int(os.environ.get("VERIF_MAX_SHARDS", "64"))))
-        budget = chk.get("budget_s", {}).get(tier, 120 if tier == "quick" else 900)
+        budget = part.get("budget_s", chk.get("budget_s", {})).get(tier, 120 if tier == "quick" else 900)
         env = dict(os.environ, VERIF_TIER=tier, VERIF_SHARDS=str(shards), VERIF_SEED=str(seed), VERIF_BUDGET_S=str(budget),
                    VERIF_REPO=REPO, VERIF_DIR=VERIF)
-        if chk.get("gomaxprocs"):
-            env["GOMAXPROCS"] = str(chk["gomaxprocs"])
+        gmp = part.get("gomaxprocs", chk.get("gomaxprocs"))
+        if gmp:
+            env["GOMAXPROCS"] = str(gmp)
         env.pop("VERIF_REPLAY", None)
+        cwd = os.path.join(REPO, part["package"]) if os.path.isdir(os.path.join(REPO, part["package"])) else REPO
         for i in range(shards):
-            e = dict(env, VERIF_SHARD=str(i), VERIF_OUT=os.path.join(scratch, "out_%d.json" % i))
-            lf = open(os.path.join(scratch, "log_%d.txt" % i), "w")
-            p = subprocess.Popen([binp, "-test.run", "^%s$" % chk["test"], "-test.timeout", "%ds" % int(budget * 3 + 600), "-test.v"],
-                                 cwd=os.path.join(REPO, chk["package"]) if os.path.isdir(os.path.join(REPO, chk["package"])) else REPO,
-                                 env=e, stdout=lf, stderr=subprocess.STDOUT)
+            e = dict(env, VERIF_SHARD=str(i), VERIF_OUT=os.path.join(pscratch, "out_%d.json" % i))
+            lf = open(os.path.join(pscratch, "log_%d.txt" % i), "w")
+            p = subprocess.Popen([binp, "-test.run", "^%s$" % part["test"], "-test.timeout", "%ds" % int(budget * 3 + 600), "-test.v"],
+                                 cwd=cwd, env=e, stdout=lf, stderr=subprocess.STDOUT)
             procs.append((p, lf))
         hard = time.time() + budget * 3 + 660
         results = []
@@ -132,22 +139,45 @@ def run_check(pid, tier, seed):
                 p.kill()
                 infra("shard %d of %s did not finish within its hard limit" % (i, pid))
             lf.close()
-            log = open(os.path.join(scratch, "log_%d.txt" % i)).read()
-            outp = os.path.join(scratch, "out_%d.json" % i)
+            log = open(os.path.join(pscratch, "log_%d.txt" % i)).read()
+            outp = os.path.join(pscratch, "out_%d.json" % i)
             if p.returncode != 0 or not os.path.exists(outp):
                 tail = log[-5000:]
                 if "INFRA:" in log:
                     tail = log[log.index("INFRA:"):][:5000]
-                infra("shard %d of %s exited with %s without a result:\n%s" % (i, pid, p.returncode, tail))
-            results.append(json.load(open(outp)))
+                infra("shard %d of %s (part %d) exited with %s without a result:\n%s" % (i, pid, pi, p.returncode, tail))
+            r = json.load(open(outp))
+            r["_part"] = pi
+            results.append(r)
         procs = []
-        return merge(pid, chk, tier, seed, results, scratch, t_start, build_s, shards)
+        return results, build_s, shards
     finally:
         for p, lf in procs:
             try:
                 p.kill()
             except Exception:
                 pass
+
+
+def parts_of(chk):
+    return chk.get("parts") or [chk]
+
+
+def run_check(pid, tier, seed):
+    chk = load_check(pid)
+    t_start = time.time()
+    scratch = tempfile.mkdtemp(prefix="vchk_%s_" % pid, dir=os.environ.get("VERIF_SCRATCH", "/tmp"))
+    try:
+        results, build_s, shards = [], 0.0, 0
+        for pi, part in enumerate(parts_of(chk)):
+            if tier not in part.get("tiers", ["quick", "thorough"]):
+                continue
+            r, b, sh = run_part(pid, chk, part, pi, tier, seed, scratch)
+            results += r
+            build_s += b
+            shards = max(shards, sh)
+        return merge(pid, chk, tier, seed, results, scratch, t_start, build_s, shards)
+    finally:
         shutil.rmtree(scratch, ignore_errors=True)
 
 
@@ -186,11 +216,13 @@ def merge(pid, chk, tier, seed, results, scratch, t_start, build_s, shards):
             a["exhaustive_within_bound"] = a["exhaustive_within_bound"] and s["exhaustive_within_bound"]
             a["distinct_outcomes"].update((s.get("outcomes") or {}).keys())
         for v in (r.get("violations") or []):
+            if isinstance(v.get("replay"), dict):
+                v["replay"]["part"] = r.get("_part", 0)
             cur = violations.get(v["sig"])
             if cur is None or v.get("cost", 0) < cur.get("cost", 0):
                 violations[v["sig"]] = v
     # union of state hashes when shards exported them
-    sfiles = glob.glob(os.path.join(scratch, "out_*.json.states"))
+    sfiles = glob.glob(os.path.join(scratch, "p*", "out_*.json.states"))
     if sfiles and len(sfiles) == len(results):
         u = set()
         for f in sfiles:
@@ -264,13 +296,16 @@ def replay(path):
     rf = json.load(open(path))
     pid = rf["property"]
     chk = load_check(pid)
+    part = parts_of(chk)[int(rf.get("part", 0))]
     scratch = tempfile.mkdtemp(prefix="vrep_%s_" % pid, dir=os.environ.get("VERIF_SCRATCH", "/tmp"))
     try:
-        overlay = build_overlay(chk, scratch)
-        binp, _ = build_test(chk, scratch, overlay)
+        overlay = build_overlay(part, scratch)
+        binp, _ = build_test(part, scratch, overlay)
         env = dict(os.environ, VERIF_REPLAY=os.path.abspath(path), VERIF_TIER="quick", VERIF_REPO=REPO, VERIF_DIR=VERIF)
-        cwd = os.path.join(REPO, chk["package"]) if os.path.isdir(os.path.join(REPO, chk["package"])) else REPO
-        r = subprocess.run([binp, "-test.run", "^%s$" % chk["test"], "-test.v"], cwd=cwd, env=env)
+        if part.get("gomaxprocs", chk.get("gomaxprocs")):
+            env["GOMAXPROCS"] = str(part.get("gomaxprocs", chk.get("gomaxprocs")))
+        cwd = os.path.join(REPO, part["package"]) if os.path.isdir(os.path.join(REPO, part["package"])) else REPO
+        r = subprocess.run([binp, "-test.run", "^%s$" % part["test"], "-test.v"], cwd=cwd, env=env)
         return 1 if r.returncode else 0
     finally:
         shutil.rmtree(scratch, ignore_errors=True)
@@ -283,14 +318,15 @@ def setup():
     ok = True
     for pid in ids:
         chk = load_check(pid)
-        scratch = tempfile.mkdtemp(prefix="vsetup_", dir=os.environ.get("VERIF_SCRATCH", "/tmp"))
-        try:
-            t0 = time.time()
-            overlay = build_overlay(chk, scratch)
-            build_test(chk, scratch, overlay)
-            print("setup: built %s in %.1fs" % (pid, time.time() - t0), flush=True)
-        finally:
-            shutil.rmtree(scratch, ignore_errors=True)
+        for pi, part in enumerate(parts_of(chk)):
+            scratch = tempfile.mkdtemp(prefix="vsetup_", dir=os.environ.get("VERIF_SCRATCH", "/tmp"))
+            try:
+                t0 = time.time()
+                overlay = build_overlay(part, scratch)
+                build_test(part, scratch, overlay)
+                print("setup: built %s part %d in %.1fs" % (pid, pi, time.time() - t0), flush=True)
+            finally:
+                shutil.rmtree(scratch, ignore_errors=True)
     return 0 if ok else 2
 
 
